@@ -96,7 +96,9 @@ def rule_fileset_source(ctx, rep):
     # context helpers
     for name, want_ex, want_in in (("find_and_fix_paths", "path_exclude", "path_include"), ("filter_paths", "path_exclude", "included_paths")):
         fn = ctx.prog.func(f"{CTX}.{name}")
-        calls = [n for n in walk_no_nested(fn.node) if isinstance(n, ast.Call) and last_attr(n.func) == "match_files"]
+        from ..derive import calls_through
+
+        calls = [c for c, _chain in calls_through(ctx, fn, "codemodder.code_directory.match_files")]
         mf = ctx.prog.func("codemodder.code_directory.match_files")
         ok = False
         if calls:
@@ -186,19 +188,49 @@ def rule_line_suffix(ctx, rep):
         "':line' suffix is stripped before matching",
         min_instances=2,
     )
+    from ..derive import Pipeline
+    from ..logic import consistent_assignments
+
     fn = ctx.prog.func("codemodder.code_directory.filter_files")
-    ifexps = [n for n in walk_no_nested(fn.node) if isinstance(n, ast.IfExp)]
-    ok_inc = ok_exc = False
-    for ie in ifexps:
-        t = unparse(ie.test)
-        branches = {True: ie.body, False: ie.orelse}
-        if t in ("not exclude", "exclude"):
-            exc_b = branches[t == "exclude"]
-            inc_b = branches[t != "exclude"]
-            ok_inc = "split(':')[0]" in unparse(inc_b)
-            ok_exc = any(isinstance(c, ast.Compare) and isinstance(c.ops[0], ast.NotIn) and isinstance(c.left, ast.Constant) and c.left.value == ":" for c in ast.walk(exc_b))
-    rep.check("R-LINE-SUFFIX", fn.qname, fn.loc(), ok_exc, "exclude-drops-line-patterns", "the exclude branch of filter_files no longer drops patterns containing ':' (a `path:line` exclude would exclude the whole file)")
-    rep.check("R-LINE-SUFFIX", fn.qname, fn.loc(), ok_inc, "include-strips-suffix", "the include branch of filter_files no longer strips the ':line' suffix (a `path:line` include would match no file)")
+    r = ctx.resolver(fn)
+    matchers = []
+    for n in ast.walk(fn.node):
+        if isinstance(n, ast.Call):
+            q = r.callee_qname(n) or ""
+            if q in ("fnmatch.filter", "fnmatch.fnmatch", "fnmatch.fnmatchcase") and len(n.args) >= 2:
+                matchers.append((n, n.args[1]))
+            elif q.endswith("._wildcard_to_regex") or q in ("re.compile", "fnmatch.translate"):
+                if n.args:
+                    matchers.append((n, n.args[0]))
+    if not matchers:
+        raise AnalysisError("filter_files: no glob matcher call (fnmatch.*) found")
+    pl = Pipeline(ctx, fn, "patterns")
+
+    def atom(e):
+        return "EXCLUDE" if isinstance(e, ast.Name) and e.id == "exclude" else None
+
+    exc_bad, inc_bad, unknown = [], [], []
+    n_alt = 0
+    for call, arg in matchers:
+        for facts, kind in pl.matcher_arg(arg):
+            n_alt += 1
+            envs = consistent_assignments(facts, atom, ["EXCLUDE"])
+            if kind.startswith("unknown"):
+                unknown.append(kind)
+                continue
+            for env in envs:
+                if env["EXCLUDE"] and kind != "dropped":
+                    exc_bad.append(kind)
+                if not env["EXCLUDE"] and kind != "stripped":
+                    inc_bad.append(kind)
+    if unknown:
+        raise AnalysisError(f"filter_files: pattern derivation not understood ({unknown[0]})")
+    if n_alt < 2:
+        raise AnalysisError("filter_files: fewer than two pattern derivations found")
+    rep.check("R-LINE-SUFFIX", fn.qname, fn.loc(), not exc_bad, "exclude-drops-line-patterns",
+              f"with exclude=True the matcher receives {sorted(set(exc_bad))} patterns: `path:line` excludes are not dropped (a line exclude would exclude the whole file, or never match)")
+    rep.check("R-LINE-SUFFIX", fn.qname, fn.loc(), not inc_bad, "include-strips-suffix",
+              f"with exclude=False the matcher receives {sorted(set(inc_bad))} patterns: the ':line' suffix is not stripped (a `path:line` include would match no file / is discarded)")
 
 
 ROLE_FAMILIES = [
